@@ -99,6 +99,7 @@ pub fn contract_run(name: &str, seed: u64, stats: &mut BTreeMap<String, u64>) ->
     let second: Option<Box<dyn Adapter>> = if persistent(name) { Some(open(name, &path).map_err(|c| cv("contract-open-abort", format!("constructing a second handle on the same storage does not return: {}", c.text())))?) } else { None };
     let mut model: BTreeMap<String, Vec<u8>> = BTreeMap::new();
     let mut keys: Vec<String> = vec![];
+    let mut refused: Vec<String> = vec![];
     let n = rng.range(10, 60);
     for _ in 0..n {
         let k = rng.below(100);
@@ -112,6 +113,11 @@ pub fn contract_run(name: &str, seed: u64, stats: &mut BTreeMap<String, u64>) ->
                     key_ = format!("{}{}", &k0[..2], &key_[2..]);
                 }
             }
+            if rng.chance(1, 20) && !model.contains_key(&key_) {
+                // a key the directory backends cannot store (file name too long once shard directory and
+                // wrapper suffix are added): the write may be refused, and must then leave no trace
+                key_ = format!("{}{}", "f".repeat(rng.range(245, 256)), &key_[key_.len().saturating_sub(6)..]);
+            }
             let data = bytes(&mut rng);
             bump(stats, "contract.write");
             if model.contains_key(&key_) {
@@ -124,6 +130,11 @@ pub fn contract_run(name: &str, seed: u64, stats: &mut BTreeMap<String, u64>) ->
             let h: &dyn Adapter = if via_second { second.as_deref().unwrap() } else { a.as_ref() };
             let r = guard(|| h.write_object(&key_, &data)).map_err(|c| cv("contract-abort", format!("write_object({}, {} bytes) does not return: {}", key_, data.len(), c.text())))?;
             if let Err(e) = r {
+                if key_.len() > 240 && !model.contains_key(&key_) {
+                    bump(stats, "contract.write_refused");
+                    refused.push(key_.clone());
+                    continue;
+                }
                 return Err(cv("contract-write-err", format!("write_object({}, {} bytes) failed: {}", key_, data.len(), e)));
             }
             if !model.contains_key(&key_) {
@@ -131,7 +142,7 @@ pub fn contract_run(name: &str, seed: u64, stats: &mut BTreeMap<String, u64>) ->
                 keys.push(key_);
             }
         } else if k < 55 {
-            let key_ = if rng.chance(1, 8) { key(&mut rng) } else { rng.pick(&keys).clone() };
+            let key_ = if !refused.is_empty() && rng.chance(1, 10) { rng.pick(&refused).clone() } else if rng.chance(1, 8) { key(&mut rng) } else { rng.pick(&keys).clone() };
             bump(stats, "contract.read");
             let r = guard(|| a.read_object(&key_, 0, 0)).map_err(|c| cv("contract-abort", format!("read_object({}, 0, 0) does not return: {}", key_, c.text())))?;
             match (model.get(&key_), r) {
